@@ -295,4 +295,125 @@ theorem readForward_pieces_prefix (L : Nat) (ps' ps : List Bytes)
       exact this
     · rfl
 
+
+/-! ## reversed reads -/
+
+theorem reverseWords_append (x y : Bytes) (hx : x.length % 2 = 0) :
+    reverseWords (x ++ y) = reverseWords y ++ reverseWords x := by
+  induction x using reverseWords.induct with
+  | case1 a b rest ih =>
+    have : rest.length % 2 = 0 := by simp at hx; omega
+    simp [reverseWords, ih this]
+  | case2 t ht =>
+    match t, ht with
+    | [], _ => simp [reverseWords]
+    | [_], _ => simp at hx
+    | p :: q :: r, ht => exact absurd rfl (ht p q r)
+
+/-- how much of the end of the window the readable blocks cover. -/
+def coveredRev (h : Holey) (off len : Nat) : Nat :=
+  min (countOk (fun k => h.avail (off + len - min ((k + 1) * READ_BLOCK) len) (off + len - k * READ_BLOCK))
+        ((len + READ_BLOCK - 1) / READ_BLOCK) 0 * READ_BLOCK) len
+
+theorem readReversed_eq (h : Holey) (off len : Nat) :
+    readReversed h off len =
+      reverseWords ((h.bytes.drop (off + len - coveredRev h off len)).take (coveredRev h off len)) := rfl
+
+/-- the tail of the window that a reversed read returns was readable. -/
+theorem readReversed_avail (h : Holey) (off len : Nat) :
+    h.avail (off + len - coveredRev h off len) (off + len) = true := by
+  unfold coveredRev
+  generalize hp : (fun k => h.avail (off + len - min ((k + 1) * READ_BLOCK) len) (off + len - k * READ_BLOCK)) = p
+  generalize hnb : (len + READ_BLOCK - 1) / READ_BLOCK = nb
+  have hspec := countOk_spec p nb 0
+  generalize countOk p nb 0 = m at hspec
+  have key : ∀ j, j ≤ m → h.avail (off + len - min (j * READ_BLOCK) len) (off + len) = true := by
+    intro j
+    induction j with
+    | zero => intro _; unfold Holey.avail; rw [List.all_eq_true]; intro ⟨x, y⟩ _; simp
+    | succ j ih =>
+      intro hj
+      have h1 := ih (by omega)
+      have h2 := hspec j (by omega)
+      rw [← hp] at h2
+      simp only [Nat.zero_add] at h2
+      have hmul : (j + 1) * READ_BLOCK = j * READ_BLOCK + READ_BLOCK := by rw [Nat.add_mul]; simp
+      by_cases hle : j * READ_BLOCK ≤ len
+      · have e1 : min (j * READ_BLOCK) len = j * READ_BLOCK := Nat.min_eq_left hle
+        rw [e1] at h1
+        exact avail_join h _ (off + len - j * READ_BLOCK) _ (by omega) (by omega) h2 h1
+      · have e1 : min (j * READ_BLOCK) len = len := by omega
+        have e2 : min ((j + 1) * READ_BLOCK) len = len := by omega
+        rw [e2]; rw [e1] at h1; exact h1
+  exact key m (Nat.le_refl _)
+
+theorem coveredRev_le (h : Holey) (off len : Nat) : coveredRev h off len ≤ len := by
+  unfold coveredRev; omega
+
+set_option maxRecDepth 10000 in
+theorem coveredRev_even (h : Holey) (off len : Nat) (hl : len % 2 = 0) : coveredRev h off len % 2 = 0 := by
+  unfold coveredRev
+  generalize countOk _ _ 0 = m
+  unfold READ_BLOCK
+  rcases Nat.le_total (m * 4096) len with hle | hle
+  · rw [Nat.min_eq_left hle]; omega
+  · rw [Nat.min_eq_right hle]; exact hl
+
+/-- **reverse modes: what is read from content with holes is a prefix of what is read from the
+complete content** (a window of whole 2-byte samples inside the declared length). -/
+theorem readReversed_prefix_of_agree (h h' : Holey) (hc : h'.complete = true)
+    (hlen : h.bytes.length = h'.bytes.length)
+    (hagree : ∀ a b, h.avail a b = true → ∀ i, a ≤ i → i < b → h.bytes[i]? = h'.bytes[i]?)
+    (off len : Nat) (heven : len % 2 = 0) (hin : off + len ≤ h.bytes.length) :
+    readReversed h off len <+: readReversed h' off len := by
+  rw [readReversed_complete h' hc, readReversed_eq]
+  have hcl := coveredRev_le h off len
+  have hav := readReversed_avail h off len
+  have hce := coveredRev_even h off len heven
+  generalize coveredRev h off len = c at *
+  -- the tail read from `h` is the tail of the complete window
+  have etail : (h.bytes.drop (off + len - c)).take c = (h'.bytes.drop (off + len - c)).take c := by
+    apply List.ext_getElem?
+    intro i
+    simp only [List.getElem?_take, List.getElem?_drop]
+    by_cases h1 : i < c
+    · simp only [h1, if_true]
+      exact hagree _ _ hav (off + len - c + i) (by omega) (by omega)
+    · simp [h1]
+  rw [etail]
+  -- window = head ++ tail
+  have hsplit : (h'.bytes.drop off).take len =
+      (h'.bytes.drop off).take (len - c) ++ (h'.bytes.drop (off + len - c)).take c := by
+    have e1 : (h'.bytes.drop (off + len - c)) = (h'.bytes.drop off).drop (len - c) := by
+      rw [List.drop_drop]; congr 1; omega
+    rw [e1]
+    have e2 : len = (len - c) + c := by omega
+    conv => lhs; rw [e2]
+    rw [List.take_add]
+  rw [hsplit]
+  have hheadlen : ((h'.bytes.drop off).take (len - c)).length % 2 = 0 := by
+    simp only [List.length_take, List.length_drop]
+    have : len - c ≤ h'.bytes.length - off := by omega
+    rw [Nat.min_eq_left this]; omega
+  rw [reverseWords_append _ _ hheadlen]
+  exact List.prefix_append _ _
+
+
+/-- truncated chain vs. complete chain, reverse modes. -/
+theorem readReversed_pieces_prefix (L : Nat) (ps' ps : List Bytes)
+    (hlen : ps'.length = ps.length)
+    (hpre : ∀ j (h1 : j < ps'.length) (h2 : j < ps.length), ps'[j] <+: ps[j])
+    (hfull : ∀ p ∈ ps, p.length = L) (off len : Nat) (heven : len % 2 = 0)
+    (hin : off + len ≤ ps.length * L) :
+    readReversed (ofPieces L ps') off len <+: readReversed (ofPieces L ps) off len := by
+  apply readReversed_prefix_of_agree
+  · rw [ofPieces_full L ps hfull]; simp [Holey.complete]
+  · simp only [ofPieces, ofPieces_go_length, hlen]
+  · intro a b hav i ha hb
+    have hp := present_of_avail _ a b i hav ha hb
+    simp only [ofPieces] at hp ⊢
+    exact ofPieces_go_agree L ps' ps 0 hlen hpre hfull i (by simpa using hp)
+  · exact heven
+  · simp only [ofPieces, ofPieces_go_length, hlen]; exact hin
+
 end Smpl.ShortRead
